@@ -197,6 +197,11 @@ class Lexer(object):
         self.valid_prev_token = None
         self.cur_token = None
         self.cur_token_real = None
+        # whether a line terminator (also one inside a multi-line comment)
+        # was seen since the last real token, and whether one precedes
+        # the current real token; comments do not hide it (ES5 7.4, 7.9)
+        self.lt_pending = False
+        self.lt_before_cur_token = False
         self.next_tokens = []
         self.token_stack = [[None, []]]
         self.newline_idx = [0]
@@ -345,9 +350,17 @@ class Lexer(object):
         if (self.cur_token and
                 self.cur_token.type not in DIVISION_SYNTAX_MARKERS):
             self.cur_token_real = self.cur_token
+            self.lt_before_cur_token = self.lt_pending
+            self.lt_pending = False
+        elif self.cur_token and (
+                self.cur_token.type == 'LINE_TERMINATOR' or (
+                    self.cur_token.type == 'BLOCK_COMMENT' and
+                    PATT_LINE_TERMINATOR_SEQUENCE.search(
+                        self.cur_token.value))):
+            self.lt_pending = True
 
     def _is_prev_token_lt(self):
-        return self.prev_token and self.prev_token.type == 'LINE_TERMINATOR'
+        return self.lt_before_cur_token
 
     def _read_regex(self):
         self.lexer.begin('regex')
